@@ -881,8 +881,10 @@ func (d *driver) boundString(done map[string]int) string {
 	var parts []string
 
 	for _, p := range []string{"single", "dict-single", "abs", "abs-dict", "pairs", "dict-pairs", "join3", "match", "iterator"} {
-		if l, ok := done[p]; ok {
+		if l, ok := done[p]; ok && l >= 0 {
 			parts = append(parts, fmt.Sprintf("%s<=%d", p, l))
+		} else if ok {
+			parts = append(parts, p+":cut-by-budget")
 		}
 	}
 
